@@ -1,11 +1,11 @@
 package main
 
 import (
-	"strings"
 	"crypto/sha256"
 	"fmt"
 	"net/netip"
 	"sort"
+	"strings"
 
 	"github.com/mycoria/mycoria/config"
 	"github.com/mycoria/mycoria/frame"
